@@ -286,6 +286,11 @@ func (b *Box) Send(msgType uint8, topic []byte, msg []byte, to ...UniversalID) {
 		msgs.lock.RLock()
 		messages = msgs.messages
 		msgs.lock.RUnlock()
+
+		// The topic has started, it no longer counts as a topic in flight of the parties that sent us messages for it
+		for _, sender := range msgs.senders() {
+			delete(b.totalInFlightTopicsBySender[sender], string(topic))
+		}
 	}
 
 	defer func() {
